@@ -441,6 +441,8 @@ def gen_history(rng, nops=30, comp=None, out=None, nbps=None, rich=False, rot=Tr
             op = {"op": "rot", "export": rng.random() < 0.5}
             if rng.random() < 0.12:
                 op["same"] = True        # (named outputs) onto the name in use
+            elif rng.random() < 0.12:
+                op["ext"] = True         # (named, compressed outputs) onto the name in use + the compression extension
             blocks_written = False
             if op["export"]:
                 buffered = False
